@@ -312,7 +312,7 @@ theorem one_file_at_a_time (cfg : Config) (plan : Nat → Fault) (now : Parts) (
     generalize hw : writeEvents cfg plan a b s1 b.rest = w at h
     obtain ⟨res, oa, s2⟩ := w
     cases res with
-    | retry b' => cases oa <;> simp only at h <;> cases h
+    | retry b' => cases oa <;> simp only at h <;> exact absurd h (syncWritten_ne_ok plan a.name b b' s2 s')
     | noRetry => cases oa <;> simp only at h <;> cases h
     | crashed => cases oa <;> simp only at h <;> cases h
     | ok =>
